@@ -125,7 +125,7 @@ G_CC = ["max-age=", "max-stale", "min-fresh=", "s-maxage=", "no-cache", "private
         '"a, b"', ", ", "k*=", "UTF-8''%FF", "stale-if-error="]
 G_CSP = ["default-src ", "script-src", "sandbox", "'self'", "; ", ";", "*"]
 G_ETAG = ['"a"', 'W/"a"', 'w/"a"', ", ", "W/", '""', '"a', "*"]
-G_RANGE = ["bytes=", "items=", "bytes ", "0-1", "0-", "-5", "2-3", "1-2", ", ", "0-1/2", "*/2", "0-1/*", "2-1/5", "0-9/5",
+G_RANGE = ["bytes=", "items=", "bytes ", "0-1", "0-", "-5", "2-3", "1-2", "1-0", "5-4", "4-4", "10 - 9", ", ", "0-1/2", "*/2", "0-1/*", "2-1/5", "0-9/5",
            "/", "0", "2", "-0"]
 G_DATE = ["Mon, ", "01 Jan 2024 ", "31 Feb 2024 ", "29 Feb 2023 ", "01 Jan 99 ", "01 Jan 99999 ", "01 Jan 99999999999 ", "99999999999:00:00 ",
           "06-Nov-94 ", "Sunday, ",
@@ -486,6 +486,25 @@ def date_inputs(day_index):
                 if v not in seen:
                     seen.add(v)
                     yield v
+
+
+# closed range specs first-last over a small digit domain (last = first-1, first-2, equal, larger), single and in lists
+R_DIGITS = [0, 1, 2, 5, 9, 10]
+
+
+def range_inputs(first):
+    specs = [(a, b) for a in R_DIGITS for b in R_DIGITS]
+    seen = set()
+    for b in R_DIGITS:
+        one = (first, b)
+        forms = [f"bytes={one[0]}-{one[1]}", f"bytes = {one[0]} - {one[1]}", f"BYTES={one[0]}-{one[1]} ", f"items={one[0]}-{one[1]}"]
+        for c, d in specs:
+            forms += [f"bytes={one[0]}-{one[1]},{c}-{d}", f"bytes={c}-{d}, {one[0]}-{one[1]}", f"bytes={one[0]}-{one[1]} , {c} - {d}",
+                      f"bytes={c}-{d},{one[0]}-{one[1]},-{d}", f"bytes={one[0]}-{one[1]},{c}-"]
+        for v in forms:
+            if v not in seen:
+                seen.add(v)
+                yield v
 
 
 GRAMMAR = {
@@ -900,6 +919,8 @@ def units(tier):
         us.append(("mpart", i))
     for i in range(len(D_DAYS)):
         us.append(("dates", i, "all"))
+    for a in R_DIGITS:
+        us.append(("ranges", a))
     for name, kind in P_OF.items():
         for hi in range(len(P_KIND[kind][0])):
             us.append(("params", name, hi, "all" if T else "deps"))
@@ -1278,6 +1299,14 @@ def _run(unit, kind, R, ctx, tier):
             for v in seqs_from(alpha, fi, 2):
                 eval_request(ctx, {var: v}, config="plain_storage")
         return
+    if kind == "ranges":
+        R.use("ranges")
+        for v in range_inputs(unit[1]):
+            eval_sink(ctx, "parse_range_header", SINKS["parse_range_header"][0], v, family="ranges")
+            eval_request(ctx, {"HTTP_RANGE": v}, family="ranges", sites=site_deps()["HTTP_RANGE"])
+            eval_request(ctx, {"HTTP_RANGE": v, "HTTP_IF_RANGE": '"a"'}, family="ranges", sites=site_deps()["HTTP_RANGE"])
+            R.nontrivial(("ranges", v))
+        return
     if kind == "dates":
         _k, di, which = unit
         R.use("dates")
@@ -1385,7 +1414,7 @@ def finalize(R, tier):
     need |= {"pair:" + "+".join(sorted(p)) for p in PAIRS}
     need |= {"sites:all", "sites:deps", "order:reverse", "server-variant", "config:plain_storage", "config:trusted_str",
              "mpart", "config:limits"}
-    need |= {"params:" + k for k in P_KIND} | {"dates"}
+    need |= {"params:" + k for k in P_KIND} | {"dates", "ranges"}
     need |= {"gsink:" + n for n in SINKS} | {"genv:" + v for v in VARS if v in GRAMMAR}
     for name, atoms in GRAMMAR.items():
         for a in list(atoms) + NASTY:
